@@ -270,7 +270,7 @@ def eval_model(build, name, cases):
     return rows, secs
 
 
-def translate_and_prove(ctx, name, build, proof_file, compiled=None):
+def translate_and_prove(ctx, name, build, proof_file, compiled=None, remap=None):
     """(i) translate the current source of `name` into build/Gen_<name>.v and compile it, (ii) compile the hand-written proof script
     against it and check Print Assumptions.  Returns (model_ok, problems).  `compiled`: set of targets already built in `build`."""
     problems = []; compiled = compiled if compiled is not None else set()
@@ -295,6 +295,20 @@ def translate_and_prove(ctx, name, build, proof_file, compiled=None):
     thms = re.findall(r"Print Assumptions\s+([A-Za-z0-9_']+)\s*\.", common.strip_coq_comments(src))
     rc, out, log, secs = coqc(build, proof_file)
     ctx.count("generated_model", "coqc_s", secs)
+    if rc != 0 and remap is not None:
+        # the regenerated model numbers its state fields differently (a helper inlined, a temporary gone): the same script with its
+        # field names renumbered is tried; it is only a proof script -- whatever coqc accepts proves the same closed theorems about fn
+        src2 = remap(src, open(gen).read())
+        if src2 and src2 != src:
+            open(os.path.join(build, proof_file), "w").write(src2)
+            rc2, out2, log2, secs2 = coqc(build, proof_file)
+            ctx.count("generated_model", "coqc_s", secs2)
+            if rc2 == 0:
+                rc, out, log, src = rc2, out2, log2, src2
+                ctx.count("generated_model", "script_fields_renumbered")
+                txt = common.strip_coq_comments(src) + common.strip_coq_comments(open(gen).read())
+                forb = sorted({m.group(0) for m in common.FORBIDDEN.finditer(txt)})
+                thms = re.findall(r"Print Assumptions\s+([A-Za-z0-9_']+)\s*\.", common.strip_coq_comments(src))
     closed = out.count("Closed under the global context")
     if forb: problems.append("forbidden vernacular in %s / generated file: %s" % (proof_file, forb))
     if rc != 0:
